@@ -117,6 +117,40 @@ class ListRec(list, TransmissionObserverInterface):
         self.append(("voice_ended", None, voice_header, list(blocks)))
 
 
+class SinkRec(TransmissionObserverInterface):
+    """an observer that writes into a list somebody else holds; nobody but the receiver holds the observer object itself"""
+
+    def __init__(self, sink):
+        self.sink = sink
+
+    def transmission_started(self, transmission_type):
+        self.sink.append(("started", transmission_type, None, None))
+
+    def data_transmission_ended(self, transmission_header, blocks):
+        self.sink.append(("data_ended", None, transmission_header, list(blocks)))
+
+    def voice_transmission_ended(self, voice_header, blocks):
+        self.sink.append(("voice_ended", None, voice_header, list(blocks)))
+
+
+class FailingObserver(TransmissionObserverInterface):
+    """a co-observer registered earlier that fails in every callback: the others must still be told"""
+
+    def transmission_started(self, transmission_type):
+        raise UnicodeDecodeError("utf-8", b"\xff", 0, 1, "observer failure")
+
+    def data_transmission_ended(self, transmission_header, blocks):
+        raise RuntimeError("observer failure")
+
+    def voice_transmission_ended(self, voice_header, blocks):
+        raise RuntimeError("observer failure")
+
+
+class _Events:
+    def __init__(self, sink):
+        self.events = sink
+
+
 def one_config(acc, cfg, shared=None):
     """shared: (terminal, recorder) to re-use instead of fresh ones"""
     rate, confirmed, length, k, cc, fill = cfg[:6]
@@ -167,7 +201,17 @@ def one_config(acc, cfg, shared=None):
     final_tx = None
     try:
         with contextlib.redirect_stdout(io.StringIO()):
-            if mode == "transmission_object_with_list_like_observer":
+            if mode == "observer_held_only_by_the_receiver_after_a_failing_one":
+                import gc
+                sink = []
+                final_tx = Transmission(FailingObserver())
+                final_tx.add_observer(SinkRec(sink))
+                gc.collect()
+                rec = _Events(sink)
+                for r in raw:
+                    final_tx.process_packet(Burst.from_bytes(r))
+                    calls += 2
+            elif mode == "transmission_object_with_list_like_observer":
                 # the receiving logic used directly (as the library's own tools do), with an observer object that is empty when handed over
                 rec = ListRec()
                 final_tx = Transmission(rec)
@@ -318,6 +362,7 @@ def build_space(thorough):
     for ri, (r, c) in enumerate(rc):
         for length in range(0, 41 if not thorough else 121):
             add((r, c, length, 1 + (length % 2), 1, "counter", "ShortData", "transmission_object_with_list_like_observer"))
+            add((r, c, length, length % 3, 1, "counter", "ShortData", "observer_held_only_by_the_receiver_after_a_failing_one"))
         for length in range(0, max_len + 1):
             add((r, c, length, 1, 1, "counter", "ShortData", modes[(length + ri) % 3]))
         for length in range(0, 41 if not thorough else 121):
